@@ -517,6 +517,192 @@ const fallbackIndex = `def indexSel (length : Int) (index : Int) : Option Int :=
 
 `
 
+
+// ---- isFalse (util.go): the type switch over the decoded-JSON types ----
+//
+// Shape: `switch v := value.(type) { case T: return E … }` with T among bool, []interface{},
+// map[string]interface{}, string, nil (one type per clause, one return per clause; in E the variable may
+// be used directly when it is a bool and only as len(v) otherwise), followed by the reflection cases:
+// `rv := reflect.ValueOf(value)`, a `switch rv.Kind()` without a default clause and without
+// reflect.Float64 among its cases, and a final `return false` — which is what a float64 reaches.
+
+func (t *tr) tryIsFalse(file *ast.File) (out string, why string) {
+	defer func() {
+		if r := recover(); r != nil {
+			if m, ok := r.(refusal); ok {
+				out, why = "", string(m)
+				return
+			}
+			panic(r)
+		}
+	}()
+	t.soft = true
+	defer func() { t.soft = false; t.lenVar = "" }()
+	no := func(format string, a ...interface{}) { panic(refusal(fmt.Sprintf(format, a...))) }
+	var fd *ast.FuncDecl
+	for _, d := range file.Decls {
+		if f, ok := d.(*ast.FuncDecl); ok && f.Name.Name == "isFalse" && f.Recv == nil {
+			fd = f
+		}
+	}
+	if fd == nil {
+		no("function isFalse not found")
+	}
+	t.cur = &fn{name: "isFalse", results: []kind{kBool}}
+	if len(fd.Type.Params.List) != 1 || len(fd.Type.Params.List[0].Names) != 1 {
+		no("isFalse: expected one parameter")
+	}
+	pName := fd.Type.Params.List[0].Names[0].Name
+	st := fd.Body.List
+	if len(st) < 2 {
+		no("isFalse: too short")
+	}
+	ts, ok := st[0].(*ast.TypeSwitchStmt)
+	if !ok || ts.Init != nil {
+		no("isFalse does not start with a type switch")
+	}
+	as, ok := ts.Assign.(*ast.AssignStmt)
+	if !ok || len(as.Lhs) != 1 || len(as.Rhs) != 1 {
+		no("isFalse: the type switch does not bind a variable")
+	}
+	vName := as.Lhs[0].(*ast.Ident).Name
+	if ta, ok := as.Rhs[0].(*ast.TypeAssertExpr); !ok || ta.Type != nil {
+		no("isFalse: not a type switch on the parameter")
+	} else if id, ok := ta.X.(*ast.Ident); !ok || id.Name != pName {
+		no("isFalse: the type switch is not on the parameter")
+	}
+	arms := map[string]string{}
+	for _, c := range ts.Body.List {
+		cc := c.(*ast.CaseClause)
+		if len(cc.List) != 1 {
+			no("isFalse: a clause with %d types (default clauses and lists are outside the shape)", len(cc.List))
+		}
+		var con string
+		switch ty := cc.List[0].(type) {
+		case *ast.Ident:
+			switch ty.Name {
+			case "bool":
+				con = "bool"
+			case "string":
+				con = "str"
+			case "nil":
+				con = "null"
+			default:
+				no("isFalse: clause for type %s", ty.Name)
+			}
+		case *ast.ArrayType:
+			if it, ok := ty.Elt.(*ast.InterfaceType); !ok || ty.Len != nil || len(it.Methods.List) != 0 {
+				no("isFalse: clause for a slice type other than []interface{}")
+			}
+			con = "arr"
+		case *ast.MapType:
+			k, ok1 := ty.Key.(*ast.Ident)
+			it, ok2 := ty.Value.(*ast.InterfaceType)
+			if !ok1 || k.Name != "string" || !ok2 || len(it.Methods.List) != 0 {
+				no("isFalse: clause for a map type other than map[string]interface{}")
+			}
+			con = "obj"
+		default:
+			no("isFalse: clause for a type outside the shape")
+		}
+		if _, dup := arms[con]; dup {
+			no("isFalse: two clauses for %s", con)
+		}
+		if len(cc.Body) != 1 {
+			no("isFalse: the clause for %s is not a single return", con)
+		}
+		ret, ok := cc.Body[0].(*ast.ReturnStmt)
+		if !ok || len(ret.Results) != 1 {
+			no("isFalse: the clause for %s is not a single return", con)
+		}
+		env := map[string]kind{}
+		t.lenVar = ""
+		if con == "bool" {
+			env[vName] = kBool
+		} else if con != "null" {
+			t.lenVar = vName
+		}
+		e, k := t.expr(ret.Results[0], env)
+		if k != kBool {
+			no("isFalse: the clause for %s does not return a boolean", con)
+		}
+		arms[con] = e
+	}
+	t.lenVar = ""
+	// the reflection part, as far as a float64 is concerned
+	rest := st[1:]
+	last, ok := rest[len(rest)-1].(*ast.ReturnStmt)
+	if !ok || len(last.Results) != 1 {
+		no("isFalse does not end with a return")
+	}
+	if id, ok := last.Results[0].(*ast.Ident); !ok || id.Name != "false" {
+		no("isFalse does not end with `return false`")
+	}
+	for _, x := range rest[:len(rest)-1] {
+		switch y := x.(type) {
+		case *ast.AssignStmt:
+			// rv := reflect.ValueOf(value)
+			if len(y.Rhs) != 1 {
+				no("isFalse: unexpected assignment before the final return")
+			}
+			call, ok := y.Rhs[0].(*ast.CallExpr)
+			if !ok {
+				no("isFalse: unexpected assignment before the final return")
+			}
+			if sel, ok := call.Fun.(*ast.SelectorExpr); !ok || sel.Sel.Name != "ValueOf" {
+				no("isFalse: unexpected call before the final return")
+			}
+		case *ast.SwitchStmt:
+			call, ok := y.Tag.(*ast.CallExpr)
+			if !ok {
+				no("isFalse: the second switch is not on rv.Kind()")
+			}
+			if sel, ok := call.Fun.(*ast.SelectorExpr); !ok || sel.Sel.Name != "Kind" {
+				no("isFalse: the second switch is not on rv.Kind()")
+			}
+			for _, c := range y.Body.List {
+				cc := c.(*ast.CaseClause)
+				if len(cc.List) == 0 {
+					no("isFalse: the Kind switch has a default clause")
+				}
+				for _, e := range cc.List {
+					sel, ok := e.(*ast.SelectorExpr)
+					if !ok {
+						no("isFalse: a Kind case that is not reflect.X")
+					}
+					if strings.HasPrefix(sel.Sel.Name, "Float") || sel.Sel.Name == "Invalid" || sel.Sel.Name == "Interface" {
+						no("isFalse: the Kind switch handles %s", sel.Sel.Name)
+					}
+				}
+			}
+		default:
+			no("isFalse: statement of kind %T before the final return", x)
+		}
+	}
+	var sb strings.Builder
+	sb.WriteString("def isFalse {N : Type} : Val N → Bool\n")
+	emit := func(con, pat, bind string) {
+		e, ok := arms[con]
+		if !ok {
+			// no clause: the value reaches the reflection part; for the decoded-JSON types that have a
+			// clause in the pinned source this would change the meaning, so say what is assumed
+			no("isFalse: no clause for %s", con)
+		}
+		fmt.Fprintf(&sb, "  | %s =>%s %s\n", pat, bind, e)
+	}
+	emit("null", ".null", "")
+	emit("bool", ".bool "+leanName(vName), "")
+	emit("str", ".str s", " let length : Int := s.length;")
+	emit("arr", ".arr xs", " let length : Int := xs.length;")
+	emit("obj", ".obj kvs", " let length : Int := kvs.length;")
+	sb.WriteString("  | .num _ => false   -- a float64 matches no clause of the type switch and no case of the Kind switch\n\n")
+	return sb.String(), ""
+}
+
+const fallbackIsFalse = `def isFalse {N : Type} : Val N → Bool := Val.isFalse
+
+`
+
 // ---- the pattern translation of `slice` ----
 
 type loopPieces struct{ cond, idx, guard, post string }
@@ -848,7 +1034,7 @@ func main() {
 
 	var b strings.Builder
 	b.WriteString("-- GENERATED by /verif/tools/gotolean from util.go of /repo (working tree). Do not edit.\n")
-	b.WriteString("import Jmes.Slice\nnamespace Jmes.GenSlice\nopen Jmes.Slice (wrap64)\n\n")
+	b.WriteString("import Jmes.Slice\nimport Jmes.Value\nnamespace Jmes.GenSlice\nopen Jmes.Slice (wrap64)\n\n")
 	b.WriteString("/-- `true`: the definitions below are the translation of the Go source; `false`: the translator\n    refused the source and they are aliases of the hand-written model. -/\ndef translated : Bool := true\n\n")
 	b.WriteString("structure SliceParam where\n  N : Int\n  Specified : Bool\n  deriving Inhabited, Repr, DecidableEq\n\n")
 	for _, w := range want {
@@ -882,6 +1068,15 @@ func main() {
 	} else {
 		b.WriteString("/-- the two loops of `slice` below are the pattern translation of the Go source -/\ndef loopsTranslated : Bool := true\n\n")
 		b.WriteString(loops)
+	}
+	isf, why3 := t.tryIsFalse(file)
+	if isf == "" {
+		fmt.Fprintf(&b, "/-- isFalse was not in the shape the translator reads (%s): the model's -/\ndef isFalseTranslated : Bool := false\n\n", strings.Replace(why3, "-/", "- /", -1))
+		b.WriteString(fallbackIsFalse)
+		fmt.Fprintf(os.Stderr, "gotolean: isFalse not translated: %s\n", why3)
+	} else {
+		b.WriteString("/-- util.go `isFalse` on decoded JSON: the clauses of its type switch, translated -/\ndef isFalseTranslated : Bool := true\n\n")
+		b.WriteString(isf)
 	}
 	idx, why2 := t.tryIndex(dir)
 	if idx == "" {
